@@ -99,41 +99,52 @@ func typedTree(c *Ctx, pkg typedPkg, seed int64, level int) {
 		umff := newMirror(usff, nil)
 		um2 := newMirror(us2, nil)
 		foreign := map[int]bool{}
-		// callbacks: unitary typed handler on the for-filter clone, plain untyped handler on its twin
+		// callbacks: a unitary typed handler (ToUnitary) on every typed
+		// controller of the tree, a plain untyped handler on its twin
 		var cbMu sync.Mutex
-		var tcb, ucb [][2]string
-		tmon, err := tcff.unitary(pert.Log(), func(w string, id int) {
-			cbMu.Lock()
-			tcb = append(tcb, [2]string{w, fmt.Sprint(id)})
-			cbMu.Unlock()
-		})
-		if err != nil {
-			fail("typed NewMonitor(ToUnitary(...)) failed: %v", err)
+		tcb := map[string][][2]string{}
+		ucb := map[string][][2]string{}
+		var tmons, umons []kcache.Monitor
+		addMonitors := func(name string, t *tctl, u kcache.Publisher) bool {
+			tm, err := t.unitary(pert.Log(), func(w string, id int) {
+				cbMu.Lock()
+				tcb[name] = append(tcb[name], [2]string{w, fmt.Sprint(id)})
+				cbMu.Unlock()
+			})
+			if err != nil {
+				fail("typed NewMonitor(ToUnitary(...)) on %s failed: %v", name, err)
+				return false
+			}
+			urec := func(w string, o metav1.Object) {
+				if foreign[ID(o)] {
+					return
+				}
+				cbMu.Lock()
+				ucb[name] = append(ucb[name], [2]string{w, fmt.Sprint(ID(o))})
+				cbMu.Unlock()
+			}
+			um, _ := kcache.NewMonitor(u, kcache.BuildHandler().
+				OnInitialize(func(objs []metav1.Object) {
+					var own []metav1.Object
+					for _, o := range objs {
+						if !foreign[ID(o)] {
+							own = append(own, o)
+						}
+					}
+					if len(own) == 1 { // ToUnitary: exactly one object, else nothing
+						urec("init", own[0])
+					}
+				}).
+				OnCreate(func(o metav1.Object) { urec("create", o) }).
+				OnUpdate(func(o metav1.Object) { urec("update", o) }).
+				OnDelete(func(o metav1.Object) { urec("delete", o) }).Create())
+			tmons = append(tmons, tm)
+			umons = append(umons, um)
+			return true
+		}
+		if !addMonitors("controller", tc, uc) || !addMonitors("Clone", tcl, ucl) || !addMonitors("CloneWithFilter", tcf, ucf) || !addMonitors("CloneForFilter", tcff, ucff) {
 			return
 		}
-		urec := func(w string, o metav1.Object) {
-			if foreign[ID(o)] {
-				return
-			}
-			cbMu.Lock()
-			ucb = append(ucb, [2]string{w, fmt.Sprint(ID(o))})
-			cbMu.Unlock()
-		}
-		umon, _ := kcache.NewMonitor(ucff, kcache.BuildHandler().
-			OnInitialize(func(objs []metav1.Object) {
-				var own []metav1.Object
-				for _, o := range objs {
-					if !foreign[ID(o)] {
-						own = append(own, o)
-					}
-				}
-				if len(own) == 1 { // ToUnitary: exactly one object, else nothing
-					urec("init", own[0])
-				}
-			}).
-			OnCreate(func(o metav1.Object) { urec("create", o) }).
-			OnUpdate(func(o metav1.Object) { urec("update", o) }).
-			OnDelete(func(o metav1.Object) { urec("delete", o) }).Create())
 
 		type pair struct {
 			name string
@@ -195,8 +206,10 @@ func typedTree(c *Ctx, pkg typedPkg, seed int64, level int) {
 				fail("%s: typed Subscribe (on a typed CloneWithFilter) received %v, its untyped twin restricted to the type %v", when, got, want)
 			}
 			cbMu.Lock()
-			if fmt.Sprint(tcb) != fmt.Sprint(ucb) {
-				fail("%s: unitary typed handler saw %v, an untyped handler on the twin (initialise only with exactly one object) %v", when, tcb, ucb)
+			for _, p := range ctls {
+				if fmt.Sprint(canonCb(tcb[p.name])) != fmt.Sprint(canonCb(ucb[p.name])) {
+					fail("%s: the unitary typed handler on %s saw %v, an untyped handler on the twin (initialise only with exactly one object) %v", when, p.name, tcb[p.name], ucb[p.name])
+				}
 			}
 			cbMu.Unlock()
 		}
@@ -250,11 +263,13 @@ func typedTree(c *Ctx, pkg typedPkg, seed int64, level int) {
 		if isClosed(tcl.done()) || isClosed(tc.done()) {
 			fail("closing a typed subscription stopped the typed clone or controller above it")
 		}
-		tmon.Close()
-		umon.Close()
+		for i := range tmons {
+			tmons[i].Close()
+			umons[i].Close()
+		}
 		pert.Barrier()
-		if isClosed(tcff.done()) {
-			fail("closing a typed monitor stopped the typed clone it was attached to")
+		if isClosed(tcff.done()) || isClosed(tc.done()) || isClosed(tcl.done()) || isClosed(tcf.done()) {
+			fail("closing a typed monitor stopped the typed controller or clone it was attached to")
 		}
 		history(4)
 		compare("after a typed subscription and the monitors were closed")
@@ -276,6 +291,19 @@ func typedTree(c *Ctx, pkg typedPkg, seed int64, level int) {
 		if _, err := tcf.clone(); err == nil {
 			fail("Clone on a closed typed clone succeeded")
 		}
+		// a plain typed clone closes itself only
+		tcl.closeFn()
+		ucl.Close()
+		pert.Barrier()
+		if !isClosed(tcl.done()) {
+			fail("a closed typed Clone is not done")
+		}
+		if isClosed(tc.done()) || isClosed(tcff.done()) {
+			fail("closing a typed Clone stopped the typed controller or a sibling")
+		}
+		history(3)
+		ctls = []pair{{"controller", tc, uc}, {"CloneForFilter", tcff, ucff}}
+		compare("after the typed clones were closed")
 		tc.closeFn()
 		uc.Close()
 		pert.Barrier()
@@ -314,6 +342,20 @@ func typedTree(c *Ctx, pkg typedPkg, seed int64, level int) {
 // which differs between two caches holding the same content.
 func canonRuns(evs [][2]int) [][2]int {
 	r := append([][2]int(nil), evs...)
+	for i := 0; i < len(r); {
+		j := i
+		for j < len(r) && r[j][0] == r[i][0] {
+			j++
+		}
+		sort.Slice(r[i:j], func(a, b int) bool { return r[i+a][1] < r[i+b][1] })
+		i = j
+	}
+	return r
+}
+
+// canonCb: as canonRuns, for callback logs.
+func canonCb(l [][2]string) [][2]string {
+	r := append([][2]string(nil), l...)
 	for i := 0; i < len(r); {
 		j := i
 		for j < len(r) && r[j][0] == r[i][0] {
